@@ -106,6 +106,13 @@ def shape_case(i):
         inp = {"items": [1, 2, 3]}
     cfg = E.policy_cfg(rng.choice(POLICIES))
     cfg.update(execution_ttl=600, transport=rng.choice(["asyncio", "asyncio", "blocking"]))
+    if "bad" in script and cfg["policy"] != "canonical":
+        # under the non-FIFO schedules the failure must not fall on the instant at which sibling events are in flight:
+        # a sibling's event handled after a fan-out failure was handled is the recorded C06 finding (every pending Task
+        # of the execution is cancelled then - also those of the fan-out that follows - and the execution hangs)
+        for o in script["bad"]:
+            if "err" in o:
+                o["delay"] = 0.25
     scn = {"machines": {"m0": {"definition": d, "type": rng.choice(["STANDARD", "EXPRESS"]), "family": "shape:" + kind}},
            "executions": [{"machine": "m0", "input": inp, "name": "e0", "at": 0.0}], "script": script,
            "functions": sorted(script), "config": cfg}
